@@ -35,7 +35,11 @@ var c12plan = msgsPlan{
 	UnreachNames: []string{"sync/current", "sync/higher-version", "sync/odd-phase-no-sigs", "sync/unknown-id", "sync/empty-tx",
 		"ledger/base", "sub/base", "virtual/base", "update/relayed-by-stranger", "resp/update-rej-next", "ctrl/ping"},
 	// crafted responses to the victim's own proposals and updates
-	Own:         true,
+	Own: true,
+	// honest requests of M whose answer by the victim cannot be delivered (fails at once / blocks)
+	Undeliv: true,
+	// both ends of a virtual channel collude against the hub
+	HubPair:     true,
 	PairPoints:  []string{"open-v1", "sub-v0"},
 	InflightPts: []string{"open-v1"},
 	InflightCats: map[string]bool{"proposal": true, "proposal-c12": true, "update": true, "vfund": true, "vsettle": true,
@@ -61,6 +65,13 @@ func c12check(ssc schedrun.Scenario, s *vsched.Sched, o any) []schedrun.Verdict 
 	out, done := msgsCommonVerdicts("C12", ssc, s, obs)
 	if done {
 		return out
+	}
+	if strings.HasPrefix(obs.Variant, "undeliv") {
+		if len(obs.Undeliv) == 0 {
+			out = append(out, schedrun.Verdict{Property: "C12", Clause: "harness-error", Site: obs.Pt + "/" + obs.Msg,
+				Detail: "the publication that was to fail never happened (" + obs.OwnRes + "): the case is vacuous"})
+		}
+		return append(out, probeVerdicts("C12", obs)...)
 	}
 	if obs.OwnHonest {
 		if obs.OwnRes != "ok" {
